@@ -1,151 +1,62 @@
-"""Generator for coq/Gen/ConfigIdConsts.v (property C12).
+"""Generator for coq/Gen/ConfigIdConsts.v (property C12): DATA only.
 
 Extracts from bec2format/configid.py, without retyping anything:
   * UNKNOWN                                   -> CFGID_UNKNOWN : N
-  * the two patterns given to re.match in ConfigId.create_from_str, in source order
-                                              -> CFGID_PATTERN_NUMERIC, CFGID_PATTERN_NAMEONLY : list N
-  * the two format strings of ConfigId.cfgid_str (device-settings branch / general branch)
-                                              -> CFGID_FMT_DEVSETTINGS, CFGID_FMT_FULL : list N
-  * the format string of the name-only branch of ConfigId.__str__
-                                              -> CFGID_FMT_NAMEONLY : list N
-  * the separator put between the id and the name in __str__ -> CFGID_NAME_SEP : list N
+  * the two string-literal patterns passed to re.match inside ConfigId.create_from_str,
+    in source order                           -> CFGID_PATTERN_NUMERIC, CFGID_PATTERN_NAMEONLY
+  * the set of string constants of ConfigId.cfgid_str (the two format strings)
+                                              -> CFGID_CFGIDSTR_STRINGS : list (list N), sorted
+  * the set of string constants of ConfigId.__str__ (name-only format, separator, "")
+                                              -> CFGID_STR_STRINGS : list (list N), sorted
 
-Strings are emitted as lists of code points.  The hand-written matcher/printer in
-coq/Model/ConfigId.v renders the pattern/format strings it implements from its own
-width constants; Proofs/ConfigIdProofs.v proves (by reflexivity) that they are equal
-to the strings generated here, so a changed pattern, width or format in the source
-breaks a proof obligation of C12.
+Strings are lists of code points.  The hand-written matcher/printer of coq/Model/ConfigId.v
+renders the pattern/format strings it implements from its own width constants;
+C12_source_tie proves them equal to the strings generated here, so a changed pattern, width
+or format in the source breaks a proof obligation of C12.
 
-Fails closed (TranslationError) when the source does not have the expected shape:
-number and form of the re.match calls (two positional arguments, constant pattern, the
-parameter as subject, no flags), use of the match groups, the shape of cfgid_str and
-__str__."""
+Nothing about CODE is constrained here: control flow, variable names, how the match groups
+are read (group(i), groups(), named access) and statement order (beyond the order of the two
+re.match calls) are tied by the hand model + correspondence + search, not by this generator.
+Fails closed (TranslationError) only when the data cannot be extracted: UNKNOWN is not an
+int constant, or create_from_str does not contain exactly two re.match calls with exactly two
+positional arguments (pattern literal, subject; a third argument would be regex flags)."""
 import ast
 
-from py2v import (HEADER, TranslationError, cN, cstr, const_eval, find_class, find_func,
-                  module_assign, parse)
+from py2v import HEADER, TranslationError, cN, cstr, const_eval, find_func, module_assign, parse
 
 SRC = "bec2format/configid.py"
 
 
-def _calls(node, pred):
-    return [n for n in ast.walk(node) if isinstance(n, ast.Call) and pred(n)]
-
-
-def _is_re_match(c):
-    f = c.func
-    return isinstance(f, ast.Attribute) and f.attr == "match" and isinstance(f.value, ast.Name) \
-        and f.value.id == "re"
-
-
 def _patterns(tree):
     fn = find_func(tree, "create_from_str", "ConfigId")
-    params = [a.arg for a in fn.args.args]
-    if len(params) != 2:
-        raise TranslationError("create_from_str: unexpected parameters %r" % (params,))
-    subject = params[1]
-    # any other use of the re module (search, fullmatch, compile, flags) is outside the model
-    for n in ast.walk(fn):
-        if isinstance(n, ast.Attribute) and isinstance(n.value, ast.Name) and n.value.id == "re" \
-                and n.attr != "match":
-            raise TranslationError("create_from_str uses re.%s (only re.match is modelled)" % n.attr)
-    calls = _calls(fn, _is_re_match)
+    calls = [n for n in ast.walk(fn) if isinstance(n, ast.Call) and isinstance(n.func, ast.Attribute)
+             and n.func.attr == "match" and isinstance(n.func.value, ast.Name) and n.func.value.id == "re"]
     calls.sort(key=lambda c: (c.lineno, c.col_offset))
     if len(calls) != 2:
         raise TranslationError("create_from_str: expected exactly two re.match calls, found %d" % len(calls))
     pats = []
     for c in calls:
         if c.keywords or len(c.args) != 2:
-            raise TranslationError("re.match call with flags/keywords: " + ast.unparse(c))
-        p, s = c.args
+            raise TranslationError("re.match call with a flags argument / keywords: " + ast.unparse(c))
+        p = c.args[0]
         if not (isinstance(p, ast.Constant) and isinstance(p.value, str)):
-            raise TranslationError("re.match pattern is not a string constant: " + ast.unparse(c))
-        if not (isinstance(s, ast.Name) and s.id == subject):
-            raise TranslationError("re.match subject is not the parameter: " + ast.unparse(c))
+            raise TranslationError("re.match pattern is not a string literal: " + ast.unparse(c))
         pats.append(p.value)
-    # control shape: first match decides; only if it fails is the second pattern tried
-    body = [s for s in fn.body if not (isinstance(s, ast.Expr) and isinstance(s.value, ast.Constant))]
-    if len(body) != 2 or not isinstance(body[0], ast.Assign) or not isinstance(body[1], ast.If):
-        raise TranslationError("create_from_str: unexpected statement structure")
-    if body[0].value is not calls[0] or ast.unparse(body[1].test) != ast.unparse(body[0].targets[0]):
-        raise TranslationError("create_from_str: first statement is not `m = re.match(...)` / `if m:`")
-    top_if = body[1]
-    if len(top_if.body) != 1 or not isinstance(top_if.body[0], ast.Return):
-        raise TranslationError("create_from_str: numeric branch is not a single return")
-    els = top_if.orelse
-    if len(els) != 2 or not isinstance(els[0], ast.Assign) or els[0].value is not calls[1] \
-            or not isinstance(els[1], ast.If) or ast.unparse(els[1].test) != ast.unparse(els[0].targets[0]):
-        raise TranslationError("create_from_str: name-only branch has an unexpected structure")
-    if len(els[1].body) != 1 or not isinstance(els[1].body[0], ast.Return) \
-            or len(els[1].orelse) != 1 or not isinstance(els[1].orelse[0], ast.Raise):
-        raise TranslationError("create_from_str: name-only branch is not return / raise")
-    # group usage: which group feeds which field (emitted, so that the model's choice is checked)
-    def groups(ret):
-        call = ret.value
-        if not isinstance(call, ast.Call) or call.args:
-            raise TranslationError("create_from_str: return is not cls(keyword=...)")
-        out = {}
-        for kw in call.keywords:
-            v = kw.value
-            conv = "raw"
-            if isinstance(v, ast.Constant) and v.value is None:
-                out[kw.arg] = ("none", 0)
-                continue
-            if isinstance(v, ast.Call) and isinstance(v.func, ast.Name) and v.func.id in ("int", "str") \
-                    and len(v.args) == 1 and not v.keywords:
-                conv = "int" if v.func.id == "int" else "raw"   # str(group) of a str is the group
-                v = v.args[0]
-            if isinstance(v, ast.Call) and isinstance(v.func, ast.Attribute) and v.func.attr == "group" \
-                    and len(v.args) == 1 and isinstance(v.args[0], ast.Constant) \
-                    and isinstance(v.args[0].value, int):
-                out[kw.arg] = (conv, v.args[0].value)
-            else:
-                raise TranslationError("create_from_str: field %s is not built from a match group: %s"
-                                       % (kw.arg, ast.unparse(kw.value)))
-        return out
-    return pats, groups(top_if.body[0]), groups(els[1].body[0])
+    return pats
 
 
-def _formats(tree):
-    cls = find_class(tree, "ConfigId")
-    fn = find_func(tree, "cfgid_str", "ConfigId")
-    ifs = [n for n in ast.walk(fn) if isinstance(n, ast.If)
-           and ast.unparse(n.test) == "self.is_device_settings"]
-    if len(ifs) != 1:
-        raise TranslationError("cfgid_str: expected one `if self.is_device_settings`")
-
-    def only_fmt(stmts):
-        if len(stmts) != 1 or not isinstance(stmts[0], ast.Assign) or len(stmts[0].targets) != 1 \
-                or not isinstance(stmts[0].targets[0], ast.Name) \
-                or not isinstance(stmts[0].value, ast.Constant) or not isinstance(stmts[0].value.value, str):
-            raise TranslationError("cfgid_str: branch is not `fmtstr = <string constant>`")
-        return stmts[0].targets[0].id, stmts[0].value.value
-    n1, dev = only_fmt(ifs[0].body)
-    n2, full = only_fmt(ifs[0].orelse)
-    if n1 != n2:
-        raise TranslationError("cfgid_str: branches assign different variables")
-    fcalls = _calls(fn, lambda c: isinstance(c.func, ast.Attribute) and c.func.attr == "format")
-    if len(fcalls) != 1 or not isinstance(fcalls[0].func.value, ast.Name) or fcalls[0].func.value.id != n1 \
-            or fcalls[0].args:
-        raise TranslationError("cfgid_str: expected exactly one `%s.format(keywords...)`" % n1)
-    strs = [n.value for n in ast.walk(fn) if isinstance(n, ast.Constant) and isinstance(n.value, str)]
-    if sorted(strs) != sorted([dev, full]):
-        raise TranslationError("cfgid_str: unexpected additional string constants %r" % (strs,))
-    # __str__: name-only format and the separator before the name
-    sfn = find_func(tree, "__str__", "ConfigId")
-    fcalls = _calls(sfn, lambda c: isinstance(c.func, ast.Attribute) and c.func.attr == "format")
-    if len(fcalls) != 1 or not isinstance(fcalls[0].func.value, ast.Constant) \
-            or not isinstance(fcalls[0].func.value.value, str) or fcalls[0].args:
-        raise TranslationError("__str__: expected exactly one `<string constant>.format(keywords...)`")
-    nameonly = fcalls[0].func.value.value
-    others = [n.value for n in ast.walk(sfn) if isinstance(n, ast.Constant) and isinstance(n.value, str)
-              and n is not fcalls[0].func.value]
-    # remaining constants: the separator `" "` and the empty alternative `""`
-    seps = [s for s in others if s != ""]
-    if len(seps) != 1 or others.count("") != 1:
-        raise TranslationError("__str__: unexpected string constants %r" % (others,))
-    del cls
-    return dev, full, nameonly, seps[0]
+def _string_constants(fn):
+    """set of string constants of a function body (docstring excluded), sorted"""
+    body = list(fn.body)
+    if body and isinstance(body[0], ast.Expr) and isinstance(body[0].value, ast.Constant) \
+            and isinstance(body[0].value.value, str):
+        body = body[1:]
+    out = set()
+    for st in body:
+        for n in ast.walk(st):
+            if isinstance(n, ast.Constant) and isinstance(n.value, str):
+                out.add(n.value)
+    return sorted(out)
 
 
 def gen_configid_consts():
@@ -153,36 +64,24 @@ def gen_configid_consts():
     unknown = const_eval(module_assign(tree, "UNKNOWN"), {})
     if not isinstance(unknown, int) or isinstance(unknown, bool):
         raise TranslationError("UNKNOWN is not an int: %r" % (unknown,))
-    (p_num, p_name), g_num, g_name = _patterns(tree)
-    dev, full, nameonly, sep = _formats(tree)
+    p_num, p_name = _patterns(tree)
+    s_cfgid = _string_constants(find_func(tree, "cfgid_str", "ConfigId"))
+    s_str = _string_constants(find_func(tree, "__str__", "ConfigId"))
+
     def cm(x):      # the source text, made safe for a Coq comment
         return repr(x).replace("*", "<star>").replace('"', "<dq>")
+
+    def strs(l):
+        return "[" + ";\n   ".join(cstr(x) for x in l) + "]" if l else "(@nil (list N))"
     out = HEADER % (SRC + " (UNKNOWN, re.match patterns, format strings)")
     out += "Open Scope N_scope.\n\n"
     out += "Definition CFGID_UNKNOWN : N := %s.\n" % cN(unknown)
     out += "(* %s *)\nDefinition CFGID_PATTERN_NUMERIC : list N := %s.\n" % (cm(p_num), cstr(p_num))
     out += "(* %s *)\nDefinition CFGID_PATTERN_NAMEONLY : list N := %s.\n" % (cm(p_name), cstr(p_name))
-    out += "(* %s *)\nDefinition CFGID_FMT_DEVSETTINGS : list N := %s.\n" % (cm(dev), cstr(dev))
-    out += "(* %s *)\nDefinition CFGID_FMT_FULL : list N := %s.\n" % (cm(full), cstr(full))
-    out += "(* %s *)\nDefinition CFGID_FMT_NAMEONLY : list N := %s.\n" % (cm(nameonly), cstr(nameonly))
-    out += "(* %s *)\nDefinition CFGID_NAME_SEP : list N := %s.\n" % (cm(sep), cstr(sep))
-
-    # which match group feeds which constructor argument, in the order customer, project,
-    # device, version, name; 0 = the argument is the constant None.  Conversions are fixed:
-    # numbers through int(), the name as the group itself.
-    order = ("customer", "project", "device", "version", "name")
-
-    def grp(g, what):
-        if sorted(g) != sorted(order):
-            raise TranslationError("create_from_str: constructor keywords %r" % (sorted(g),))
-        for f in order:
-            conv = g[f][0]
-            if conv != "none" and conv != ("raw" if f == "name" else "int"):
-                raise TranslationError("create_from_str (%s): field %s converted with %s" % (what, f, conv))
-        return "[" + "; ".join(cN(g[f][1]) for f in order) + "]"
-    out += "(* match group feeding customer, project, device, version, name (0 = None) *)\n"
-    out += "Definition CFGID_GROUPS_NUMERIC : list N := %s.\n" % grp(g_num, "numeric")
-    out += "Definition CFGID_GROUPS_NAMEONLY : list N := %s.\n" % grp(g_name, "name-only")
+    out += "(* string constants of cfgid_str, sorted: %s *)\n" % cm(s_cfgid)
+    out += "Definition CFGID_CFGIDSTR_STRINGS : list (list N) :=\n  %s.\n" % strs(s_cfgid)
+    out += "(* string constants of __str__, sorted: %s *)\n" % cm(s_str)
+    out += "Definition CFGID_STR_STRINGS : list (list N) :=\n  %s.\n" % strs(s_str)
     return "ConfigIdConsts.v", out
 
 
